@@ -138,13 +138,11 @@ def takeIdx {α : Type} (l : List α) : List Nat → Except Err (List α)
 def dumpIndex (ends : List Int) (period : Int) (t : Int) : Int :=
   (searchsortedLeft ((ends.headD 0 - period) :: ends) t : Int) - 1
 
-/-- **Mirror of `sensor_to_categorical`.**  `ends` = `dump_midtimes + 0.5 * dump_period`,
-    `tr` = transform (`none` = no transform), `greedyVals` = `greedy_values`. -/
-def sensorToCategorical (ts : List Int) (vals : List V) (ends : List Int) (period : Int)
-    (tr : Option (V → V)) (init : Option V) (greedyVals : List V) (allowRepeats : Bool) :
-    Except Err (Cat V) := do
-  -- dump_endtimes[0] - dump_period
-  if ends = [] then throw Err.index
+/-- first half of `sensor_to_categorical`: dump index per event, shift of the last prior event to
+    dump 0, cut to the events before the end of the last dump, transform.  Returns the remaining
+    (values, dump indices). -/
+def s2cCut (ts : List Int) (vals : List V) (ends : List Int) (period : Int) (tr : Option (V → V)) :
+    List V × List Nat :=
   let numDumps := ends.length
   let events0 : List Int := ts.map (dumpIndex ends period)
   -- first_proper_event = events.searchsorted(-1, side='right'); shift final prior event to dump 0
@@ -157,6 +155,11 @@ def sensorToCategorical (ts : List Int) (vals : List V) (ends : List Int) (perio
   let vals2 := match tr with
     | some f => vals1.map f
     | none => vals1
+  (vals2, events2)
+
+/-- second half of `sensor_to_categorical`: initial value, greedy clean-up, repeat removal -/
+def s2cFinish (numDumps : Nat) (vals2 : List V) (events2 : List Nat) (init : Option V)
+    (greedyVals : List V) (allowRepeats : Bool) : Except Err (Cat V) := do
   -- if events[0] != 0 and initial_value is not None
   let e0 ← match events2 with
     | [] => throw Err.index
@@ -173,6 +176,16 @@ def sensorToCategorical (ts : List Int) (vals : List V) (ends : List Int) (perio
   let pairs := List.zip vals6 events6
   let pairs := if allowRepeats then pairs else keepChanges none pairs
   pure (Cat.new (pairs.map (·.1)) (pairs.map (·.2) ++ [numDumps]))
+
+/-- **Mirror of `sensor_to_categorical`.**  `ends` = `dump_midtimes + 0.5 * dump_period`,
+    `tr` = transform (`none` = no transform), `greedyVals` = `greedy_values`. -/
+def sensorToCategorical (ts : List Int) (vals : List V) (ends : List Int) (period : Int)
+    (tr : Option (V → V)) (init : Option V) (greedyVals : List V) (allowRepeats : Bool) :
+    Except Err (Cat V) :=
+  -- dump_endtimes[0] - dump_period
+  if ends = [] then throw Err.index else
+  let cut := s2cCut ts vals ends period tr
+  s2cFinish ends.length cut.1 cut.2 init greedyVals allowRepeats
 
 /-! ### Spec: the documented rule -/
 
